@@ -351,7 +351,8 @@ def symbol_layout_rule(ctx, rid):
 def r10(ctx):
     ctx.rule('C09.R10', 'Message::decodeLastData hands the slave fields an index that is relative to the slave part: every path to '
              'the read of m_lastSlaveData on which the requested field index is not negative passes the subtraction of the '
-             'number of master fields (getCount(pt_masterData, ...)), whichever part was asked for', minimum=1)
+             'number of master fields (getCount(pt_masterData, ...)), whichever part was asked for, and that number is counted for the same field name as the read is filtered by',
+             minimum=2)
     fb = ctx.fb
     fn = fb.fn('ebusd::Message::decodeLastData')
     ctx.touch(fn)
@@ -382,6 +383,15 @@ def r10(ctx):
             return frozenset(set(user) | {'neg'})
         return user
     facts.Explorer(fn, on_elem=on_elem, on_edge=on_edge).run(fn.entry, 0, frozenset())
+    # the index counts the fields of the requested name: the count that is subtracted is taken for the same name filter as
+    # the slave read gets
+    fnames = [p for p in fn.params if p.get('name') == 'fieldName'] or [fn.params[2]]
+    fnn = fnames[0]['name']
+    for sid in sorted(subs):
+        rhs_ = [rhs for nid, d, rhs, op, lhs in fn.assignments() if nid == sid][0]
+        gc = [x for x in fn.walk(fn.def_expr(rhs_)) if (fn.nodes[x].get('callee') or '').endswith('::getCount')]
+        same = bool(gc) and all(fnn in [fn.key(a) for a in fn.nodes[x].get('args', [])] for x in gc)
+        ctx.ob('C09.R10', fn, sid, same, 'master field count', 'counted for the requested field name: %s' % same)
     for c in reads:
         if not any(fn.nodes[x].get('decl') == idxd for a in fn.nodes[c]['args'] for x in fn.walk(a)):
             ctx.ob('C09.R10', fn, c, False, 'slave read', 'the field index is not passed to the slave read')
@@ -421,7 +431,33 @@ def r11(ctx):
         raise AnalysisBroken('C09.R11: only %d changes of the limit behind the loop found' % n)
 
 
+def file_state_rule(ctx, rid):
+    ctx.rule(rid, 'a definition means what its own file says: MappedFileReader::readFromStream starts every file with empty per-file '
+             'state - each non-const container member of MappedFileReader (column names, last defaults, last field defaults) '
+             'is cleared on every path before the first line is read; a container that survives hands the defaults of an '
+             'earlier file to the definitions of a later one', minimum=3)
+    fb = ctx.fb
+    cls = fb.classes.get('ebusd::MappedFileReader')
+    fn = fb.fn('ebusd::MappedFileReader::readFromStream')
+    if not cls:
+        raise AnalysisBroken('%s: class MappedFileReader not found' % rid)
+    ctx.touch(fn)
+    members = [f['name'] for f in cls.get('fields', []) if not (f.get('t') or '').startswith('const ') and
+               any(x in (f.get('t') or '') for x in ('map<', 'vector<', 'set<', 'list<', 'deque<'))]
+    reads = [c for c in fn.all('CallExpr', 'CXXMemberCallExpr') if (fn.nodes[c].get('callee') or '').split('::')[-1] in
+             ('readLineFromStream', 'splitFields', 'getline') or (fn.nodes[c].get('callee') or '') == 'ebusd::FileReader::readFromStream']
+    if len(members) < 3 or not reads:
+        raise AnalysisBroken('%s: per-file members (%s) or the line reading call not found' % (rid, members))
+    for mname in members:
+        clears = set(c for c in fn.all('CXXMemberCallExpr') if (fn.nodes[c].get('callee') or '').endswith('::clear') and
+                     fn.key(fn.nodes[c].get('obj', -1)) == 'this.' + mname)
+        stale = any(fn.reaches_point(fn.entry, fn.pos(r), clears) for r in reads)
+        ctx.ob(rid, fn, fn.body, bool(clears) and not stale, 'per-file state %s' % mname,
+               'cleared before the first line on every path: %s' % (bool(clears) and not stale))
+
+
 def run(ctx):
+    file_state_rule(ctx, 'C09.R13')
     r11(ctx)
     r10(ctx)
     r1(ctx)
